@@ -113,6 +113,30 @@ def bound_datetime(v, rng):
     return t
 
 
+def error_body(rng, code=500):
+    """Body of a failed answer (raised HTTPError or returned non-2xx / unparsable 2xx): every encoding a gateway,
+    proxy or Graph itself may hand back.  None of them is a JSON object."""
+    return rng.choice([
+        b"",
+        b"<html><body><h1>502 Bad Gateway</h1></body></html>",
+        "<html><head><title>Erreur %d</title></head><body>Passerelle incorrecte \xe9\xe8\xe0 \xfc</body></html>".encode("latin-1") % code,
+        "\ufeff{\"error\": {\"code\": \"x\"}}".encode("utf-16"),                 # UTF-16 with BOM
+        b"\xff\xfe\x00\x81\x8d\xc3\x28\xf0\x28\x8c\x28 binary \x00\x01\x02",      # invalid UTF-8 / binary garbage
+        b"\x1f\x8b\x08\x00\x00\x00\x00\x00\x00\x03garbage-gzip",
+        ("<html>" + "Service Unavailable \u2013 bitte sp\u00e4ter erneut versuchen. " * 1500 + "</html>").encode("utf-8"),   # long
+        b'{"error": {"code": "generalException"',                                # truncated JSON
+    ])
+
+
+def error_object(rng, code=500):
+    """A JSON OBJECT as error payload: ASCII, UTF-8 with non-ASCII, escaped, very long."""
+    return rng.choice([
+        json.dumps({"error": {"code": "x%d" % code, "message": "itemNotFound"}}).encode(),
+        json.dumps({"error": {"code": "accessDenied", "message": "Zugriff verweigert \u2013 \u6587\u66f8 \u00e9"}}, ensure_ascii=False).encode("utf-8"),
+        json.dumps({"error": {"code": "activityLimitReached", "message": "throttled " * 8000, "innerError": {"date": "2024-01-15T10:00:00"}}}).encode(),
+    ])
+
+
 class FakeResponse:
     def __init__(self, log, serial, status, body, *, read_error=False, use_getcode=False):
         self._log, self._serial, self._body, self._read_error = log, serial, body, read_error
@@ -316,7 +340,7 @@ class FakeGraph:
         from email.message import Message
         from urllib.error import HTTPError
         self.log.append({"a": "Fault", "kind": "http", "code": code, "inj": inj})
-        body = json.dumps({"error": {"code": "x%d" % code, "message": "injected" if inj else "itemNotFound"}}).encode()
+        body = error_object(self.rng, code) if self.rng.random() < 0.4 else error_body(self.rng, code)
         raise HTTPError(url, code, "Error %d" % code, Message(), io.BytesIO(body))
 
     def __call__(self, request, timeout=None, **kw):
@@ -337,21 +361,21 @@ class FakeGraph:
                 raise URLError(self.rng.choice(["Connection refused", OSError(111, "Connection refused"), TimeoutError("timed out")]))
             if kind in NON2XX:          # a response RETURNED with a 1xx / 3xx / 4xx / 5xx status; bodies of every shape,
                 if kind == "non2xx":    # among them objects every caller would happily consume as a page / token / site
-                    b = json.dumps(self.rng.choice([
-                        {"error": {"code": "generalException", "message": "x"}},
-                        {"value": []},
-                        {"value": [], "id": self.site_id, "access_token": "tok-not-issued", "name": "x", "folder": {}},
-                    ])).encode()
+                    b = self.rng.choice([
+                        error_object(self.rng, code),
+                        b'{"value": []}',
+                        json.dumps({"value": [], "id": self.site_id, "access_token": "tok-not-issued", "name": "x", "folder": {}}).encode(),
+                    ])
                     tag = "ok"
                 elif kind == "non2xx_nonobject":
                     b, tag = self.rng.choice([b"[]", b'"Not Modified"', b"null", b"304"]), "nonobject"
                 else:
-                    b, tag = self.rng.choice([b"", b"", b"<html>gateway</html>", b"Moved"]), "badjson"
+                    b, tag = error_body(self.rng, code), "badjson"
                 return self._respond(code, b, {"body": tag}, inj=True)
             if kind == "readerr":
                 return self._respond(200, b"", {"body": "readerr"}, inj=True, read_error=True)
             if kind == "badjson":
-                b = self.rng.choice([b'{"value": [', b"<html>Bad gateway</html>", b"", b"{'id': 'x'}", b'{"id": "x"} trailing'])
+                b = self.rng.choice([b'{"value": [', b"{'id': 'x'}", b'{"id": "x"} trailing', error_body(self.rng), error_body(self.rng)])
             elif kind == "nonobject":
                 b = self.rng.choice([b"[]", b'["a", 1]', b'"text"', b"7", b"null", b"true", b"1.5"])
             elif kind == "badutf8":
@@ -406,14 +430,27 @@ def _unique_names(srv, rng, rot):
         for attempt in range(200):
             cls = (i + rot + attempt) % 3 if attempt < 3 else rng.randrange(3)
             if srv["kind"][i - 1] == "folder":
-                pool = [["Re", "x", "re", "2024-Q1"], ["a b#%", "Docs+1&2", "tmp;=@$!'", "q?x"], ["Üñï 文", "Ünterlagen (alt)"]][cls]
+                pool = [["Re", "x", "re", "2024-Q1"],
+                        ["a b#%", "Docs+1&2", "tmp;=@$!'", "q?x", "Budget%20Draft", "Budget Draft", "100%25", "100%", "50%zz off",
+                         "A%20B", "A B", "C%2FD", "x%23y", "x#y", "%41bc"],
+                        ["Üñï 文", "Ünterlagen (alt)", "%C3%9Cber", "Über"]][cls]
                 nm = rng.choice(pool)
             else:
                 if rng.random() < 0.15:
                     nm = rng.choice(SPECIAL_FILES)
                 else:
-                    stem = rng.choice([["a", "b", "Re"], ["a b#%", "x+y&z", "q?=1", "report 2024 (1)"], ["ünï", "données_été"]][cls])
+                    stem = rng.choice([["a", "b", "Re"], ["a b#%", "x+y&z", "q?=1", "report 2024 (1)", "a%20b", "a b", "100%25", "7%"],
+                                       ["ünï", "données_été"]][cls])
                     nm = stem + rng.choice(FILE_EXTS)
+            # pairs that collide after ONE round of percent-decoding ("A%20B" next to "A B"): a client that encodes
+            # the path zero or two times reaches the wrong sibling
+            from urllib.parse import quote as _q, unquote as _u
+            if attempt == 0 and rng.random() < 0.3:
+                twins = [t for s0 in sorted(sibs) for t in (_u(s0), _q(s0, safe="")) if t != s0 and t not in sibs and "/" not in t
+                         and (srv["kind"][i - 1] == "folder") == (srv["kind"][[j for j in range(1, i) if names[j - 1] == s0
+                                                                             and srv["parent"][j - 1] == srv["parent"][i - 1]][0] - 1] == "folder")]
+                if twins:
+                    nm = rng.choice(twins)
             if attempt >= 10:
                 nm = f"{nm}~{attempt}"
             if nm not in sibs:
